@@ -35,7 +35,8 @@ type DemuxCfg struct {
 	RewindFirst   int     // 1: Rewind before the first call; 2: one NextPacket, then Rewind (seekable readers)
 	Logger        *LogTap // when set: passed with DemuxerOptLogger
 	HasSeekFail   bool
-	SeekFailIdx   int // index of the Seek call that fails (when HasSeekFail)
+	SeekFailIdx   int             // index of the Seek call that fails (when HasSeekFail)
+	Ctx           context.Context // nil: context.Background()
 }
 
 func (c DemuxCfg) String() string {
@@ -150,7 +151,11 @@ func NewDemuxerFor(input []byte, cfg DemuxCfg) (*astits.Demuxer, *mon.RTap) {
 	if cfg.Logger != nil {
 		opts = append(opts, astits.DemuxerOptLogger(cfg.Logger))
 	}
-	return astits.NewDemuxer(context.Background(), rd, opts...), tap
+	ctx := cfg.Ctx
+	if ctx == nil {
+		ctx = context.Background()
+	}
+	return astits.NewDemuxer(ctx, rd, opts...), tap
 }
 
 // RunDemux drains a demuxer: calls the API until ErrNoMorePackets (continuing after other errors), then ExtraAfterEOF more times.
